@@ -263,7 +263,7 @@ func NewFlowOpt(p *Prog, fn *ssa.Function, normGetters bool) *Flow {
 		return fl
 	}
 	entry := fn.Blocks[0]
-	fl.in[entry] = FactSet{}
+	fl.in[entry] = contextFacts(p, fn, fl.K)
 	work := []*ssa.BasicBlock{entry}
 	inWork := map[*ssa.BasicBlock]bool{entry: true}
 	outOf := func(b *ssa.BasicBlock) FactSet {
@@ -511,6 +511,8 @@ var (
 func resetSummaries() {
 	summaryCache = map[*ssa.Function]*fnSummary{}
 	summaryBusy = map[*ssa.Function]bool{}
+	ctxMemo = map[*ssa.Function]FactSet{}
+	callIdxCache = map[*Prog]*callIndex{}
 }
 
 // summaryFacts returns the summary facts of kind ("true","false","nil","all") of the call that
@@ -676,4 +678,150 @@ func summarise(p *Prog, fn *ssa.Function) *fnSummary {
 	sum := &fnSummary{all: list(all), ifTrue: list(ifT), ifFalse: list(ifF), ifNil: list(ifN)}
 	summaryCache[fn] = sum
 	return sum
+}
+
+// ---- calling-context facts of private helpers ----
+//
+// The dual of call summaries: a private helper (unexported, never used as a value, only called
+// synchronously from its own package) starts with the facts that hold at every one of its call
+// sites, re-expressed in its own parameters. `candidates(head)` extracted from a function that
+// returned early on `head.QuorumCert().Signature() == nil` still knows that signature is non-nil.
+
+type callIndex struct {
+	callers map[*ssa.Function][]Ref
+	asValue map[*ssa.Function]bool
+}
+
+var (
+	callIdxCache = map[*Prog]*callIndex{}
+	ctxMemo      = map[*ssa.Function]FactSet{}
+	ctxBusy      = map[*ssa.Function]bool{}
+	callerLocal  = regexp.MustCompile(`\bp\d+\b|@b\d+i\d+|\bphi@|\balloc@|\bfv:|\bv@|\bclosure:`)
+)
+
+func callIndexOf(p *Prog) *callIndex {
+	if ci, ok := callIdxCache[p]; ok {
+		return ci
+	}
+	ci := &callIndex{callers: map[*ssa.Function][]Ref{}, asValue: map[*ssa.Function]bool{}}
+	for _, fn := range p.ModFuncs {
+		eachInstr(fn, func(in ssa.Instruction) {
+			var direct *ssa.Function
+			if c, ok := in.(ssa.CallInstruction); ok && !c.Common().IsInvoke() {
+				if cal := c.Common().StaticCallee(); cal != nil {
+					if _, isMC := c.Common().Value.(*ssa.MakeClosure); !isMC {
+						direct = cal
+						kind := "call"
+						switch in.(type) {
+						case *ssa.Go:
+							kind = "go"
+						case *ssa.Defer:
+							kind = "defer"
+						}
+						ci.callers[cal] = append(ci.callers[cal], Ref{fn, in, kind})
+					}
+				}
+			}
+			for _, op := range in.Operands(nil) {
+				if op == nil || *op == nil {
+					continue
+				}
+				if f, ok := (*op).(*ssa.Function); ok && f != direct {
+					ci.asValue[f] = true
+				}
+			}
+		})
+	}
+	callIdxCache[p] = ci
+	return ci
+}
+
+func contextFacts(p *Prog, fn *ssa.Function, k *Keyer) FactSet {
+	if fn.Parent() != nil || fn.Object() == nil || fn.Object().Exported() || fn.Synthetic != "" || !inModule(funcPkgPath(fn)) {
+		return FactSet{}
+	}
+	if m, ok := ctxMemo[fn]; ok {
+		return m.clone()
+	}
+	if ctxBusy[fn] || len(ctxBusy) > 4 {
+		return FactSet{}
+	}
+	ci := callIndexOf(p)
+	refs := ci.callers[fn]
+	if ci.asValue[fn] || len(refs) == 0 || len(refs) > 8 {
+		ctxMemo[fn] = FactSet{}
+		return FactSet{}
+	}
+	ctxBusy[fn] = true
+	defer delete(ctxBusy, fn)
+	var acc FactSet
+	for _, r := range refs {
+		if r.Kind != "call" || funcPkgPath(r.In) != funcPkgPath(fn) || declaredParent(r.In) == fn {
+			acc = FactSet{}
+			break
+		}
+		cfl := NewFlow(p, r.In)
+		args := r.Instr.(ssa.CallInstruction).Common().Args
+		type ak struct {
+			key string
+			idx int
+		}
+		var aks []ak
+		for i, a := range args {
+			key := cfl.K.Key(a)
+			if key == "" || key == "nil" || strings.HasPrefix(key, "c:") {
+				continue
+			}
+			aks = append(aks, ak{key, i})
+		}
+		sort.Slice(aks, func(i, j int) bool { return len(aks[i].key) > len(aks[j].key) })
+		toCallee := func(s string) (string, bool) {
+			for _, a := range aks {
+				s = strings.ReplaceAll(s, a.key, "\x00"+itoa(a.idx)+"\x01")
+			}
+			if callerLocal.MatchString(s) {
+				return "", false
+			}
+			s = strings.ReplaceAll(s, "\x00", "p")
+			s = strings.ReplaceAll(s, "\x01", "")
+			return s, true
+		}
+		here := FactSet{}
+		for f := range cfl.At(r.Instr) {
+			if f.Op == "after" {
+				continue
+			}
+			l, ok := toCallee(f.L)
+			if !ok {
+				continue
+			}
+			g := Fact{f.Op, l, ""}
+			if f.R != "" {
+				rr, ok := toCallee(f.R)
+				if !ok {
+					continue
+				}
+				g.R = rr
+			}
+			if (g.Op == "==" || g.Op == "!=") && g.L > g.R {
+				g.L, g.R = g.R, g.L
+			}
+			here[g] = true
+		}
+		if acc == nil {
+			acc = here
+		} else {
+			for f := range acc {
+				if !here[f] {
+					delete(acc, f)
+				}
+			}
+		}
+	}
+	if acc == nil {
+		acc = FactSet{}
+	}
+	_ = k
+	ctxMemo[fn] = acc
+	return acc.clone()
 }
